@@ -383,6 +383,67 @@ Section Sender.
   Qed.
 End Sender.
 
+
+(* ------------------------------------------------------------------ leading frames of a manipulated stream *)
+Lemma lead_after_prefix fs : forall j x,
+  (j <= length fs)%nat ->
+  (forall f, nth_error fs j = Some f -> starts_with f x = false) ->
+  lead fs (concat (firstn j fs) ++ x) = j /\ after_lead fs (concat (firstn j fs) ++ x) = x.
+Proof.
+  induction fs as [|f r IH]; intros j x Hj Hx.
+  - cbn [length] in Hj. assert (j = 0)%nat by lia. subst j. split; reflexivity.
+  - destruct j as [|j].
+    + cbn [firstn concat app lead after_lead]. rewrite (Hx f eq_refl). split; reflexivity.
+    + cbn [firstn concat lead after_lead]. rewrite <- app_assoc, starts_with_self_app, skipn_self_app.
+      cbn [length] in Hj. destruct (IH j x ltac:(lia) Hx) as [A B]. rewrite A, B. split; reflexivity.
+Qed.
+
+Lemma upto_final_nofin fin l : existsb fin l = false -> upto_final fin l = l.
+Proof.
+  induction l as [|m r IH]; intros H; [reflexivity|].
+  cbn [existsb] in H. apply orb_false_iff in H as [H1 H2]. cbn [upto_final]. rewrite H1, IH by assumption. reflexivity.
+Qed.
+
+Lemma decidable_head_frame c rest : blen c <= buf_size -> decidable_head (frame_of c ++ rest) = true.
+Proof.
+  intros Hb. unfold decidable_head.
+  assert (Hl : length (le_bytes 8 (blen c)) = 8%nat) by apply le_bytes_length.
+  assert (E8 : (8 <=? length (frame_of c ++ rest))%nat = true).
+  { apply Nat.leb_le. unfold frame_of. rewrite !app_length, Hl. lia. }
+  rewrite E8. cbn [andb].
+  assert (Ef : firstn 8 (frame_of c ++ rest) = le_bytes 8 (blen c)).
+  { unfold frame_of. rewrite <- app_assoc. rewrite <- Hl at 1. rewrite firstn_app, Nat.sub_diag, firstn_all. cbn [firstn]. apply app_nil_r. }
+  rewrite Ef, le_value_le_bytes by (rewrite pow_256_8; unfold buf_size, u64_limit in *; lia).
+  assert (Hlen : length (frame_of c ++ rest) = (8 + length c + length rest)%nat).
+  { unfold frame_of. rewrite !app_length, Hl. lia. }
+  apply orb_true_iff. right. apply N.leb_le. rewrite Hlen. unfold blen. lia.
+Qed.
+
+Lemma seal_cts_nth seal ms : forall ctr j c, nth_error (seal_cts seal true ctr ms) j = Some c ->
+  exists m, nth_error ms j = Some m /\ c = seal (nonce_of (ctr + 2 * N.of_nat j)) m.
+Proof.
+  induction ms as [|m0 r IH]; intros ctr j c H; [destruct j; discriminate|].
+  destruct j as [|j].
+  - cbn in H. inversion H; subst. exists m0. replace (ctr + 2 * N.of_nat 0) with ctr by lia. auto.
+  - cbn [seal_cts nth_error next_ctr] in H. destruct (IH _ _ _ H) as (m & A & B). exists m. cbn [nth_error].
+    replace (ctr + 2 * N.of_nat (S j)) with (ctr + 2 + 2 * N.of_nat j) by lia. auto.
+Qed.
+
+Lemma lsb_small x : lsb x < u64_limit.
+Proof. destruct x; reflexivity. Qed.
+
+Lemma parity_step x k : (lsb x + 2 * k) mod 2 = lsb x.
+Proof.
+  symmetry. apply N.mod_unique with (q := k); [destruct x; cbn [lsb]; lia | lia].
+Qed.
+
+Lemma other_dir_nonce d k k' :
+  lsb d + 2 * k < u64_limit -> lsb (other d) + 2 * k' < u64_limit ->
+  nonce_of (lsb d + 2 * k) = nonce_of (lsb (other d) + 2 * k') -> False.
+Proof.
+  intros A B E. apply nonce_of_inj in E; try assumption. destruct d; cbn [lsb other] in E; lia.
+Qed.
+
 (* ------------------------------------------------------------------ the session: repaired code (bump = true) *)
 Section Session.
   Variable seal : bytes -> bytes -> bytes.
@@ -513,21 +574,6 @@ Section Session.
   Hypothesis Hok_o : sender_ok seal (lsb (other d)) sent_o.
   Hypothesis Hwf : Forall (fun m => wf m = true) sent_d.
 
-  Lemma lsb_small x : lsb x < u64_limit.
-  Proof. destruct x; reflexivity. Qed.
-
-  Lemma parity_step x k : (lsb x + 2 * k) mod 2 = lsb x.
-  Proof.
-    symmetry. apply N.mod_unique with (q := k); [destruct x; cbn [lsb]; lia | lia].
-  Qed.
-
-  Lemma other_dir_nonce k k' :
-    lsb d + 2 * k < u64_limit -> lsb (other d) + 2 * k' < u64_limit ->
-    nonce_of (lsb d + 2 * k) = nonce_of (lsb (other d) + 2 * k') -> False.
-  Proof.
-    intros A B E. apply nonce_of_inj in E; try assumption. destruct d; cbn [lsb other] in E; lia.
-  Qed.
-
   Lemma opens_only_logged ctr k c m :
     ctr = lsb d + 2 * N.of_nat k -> ctr < u64_limit ->
     open (nonce_of ctr) c = Some m -> nth_error sent_d k = Some m /\ c = seal (nonce_of ctr) m.
@@ -588,4 +634,348 @@ Section Session.
          then is_failed (fst (recv_bytes (r_init d) w)) = true
          else is_waiting (fst (recv_bytes (r_init d) w)) = true.
   Proof. intros w. apply (recv_spec sent_d (lsb d) w sound_from_session). Qed.
+
+  (* Every manipulation at once: whatever complete frame stands where the j-th honest frame should
+     be (bit-flipped, re-sealed without the key, an earlier or later frame of this direction, a frame of
+     the other direction, garbage ...), the first j messages are delivered, nothing else, and the
+     receiver has failed. *)
+  Theorem recv_deviating_frame : forall j c' rest,
+    (j <= length sent_d)%nat -> existsb fin (firstn j sent_d) = false ->
+    blen c' <= buf_size -> nth_error (seal_cts seal true (lsb d) sent_d) j <> Some c' ->
+    let w := concat (firstn j honest_frames) ++ frame_of c' ++ rest in
+    snd (recv_bytes (r_init d) w) = firstn j sent_d /\ is_failed (fst (recv_bytes (r_init d) w)) = true.
+  Proof.
+    intros j c' rest Hj Hnf Hb Hne w.
+    assert (Hlen : length honest_frames = length sent_d).
+    { unfold honest_frames, frames_from. rewrite map_length. clear. generalize (lsb d).
+      induction sent_d as [|m r IH]; intros c; cbn [seal_cts length]; [reflexivity | now rewrite IH]. }
+    assert (Hx : forall f, nth_error honest_frames j = Some f -> starts_with f (frame_of c' ++ rest) = false).
+    { intros f Hf. destruct (starts_with f (frame_of c' ++ rest)) eqn:Esw; [exfalso | reflexivity].
+      unfold honest_frames, frames_from in Hf. rewrite nth_error_map in Hf.
+      destruct (nth_error (seal_cts seal true (lsb d) sent_d) j) as [cj|] eqn:Ecj; [|discriminate].
+      cbn [option_map] in Hf. inversion Hf; subst f.
+      destruct (seal_cts_nth _ _ _ _ _ Ecj) as (m & Hm & Ec).
+      destruct (sender_ok_nth seal _ _ _ _ Hok_d Hm) as [_ Q]. rewrite <- Ec in Q.
+      apply starts_with_app in Esw. apply frame_of_prefix_inj in Esw as [E _]; try assumption.
+      apply Hne. now rewrite E. }
+    destruct (lead_after_prefix honest_frames j (frame_of c' ++ rest) ltac:(lia) Hx) as [A B].
+    pose proof (recv_prefix w) as P. pose proof (recv_status w) as S.
+    unfold w in P, S. rewrite A in P, S. rewrite B in S. rewrite Hnf in S.
+    rewrite decidable_head_frame in S by assumption.
+    rewrite upto_final_nofin in P by assumption. split; assumption.
+  Qed.
+
+  (* a length field beyond the buffer: the receiving thread panics, whatever follows *)
+  Theorem recv_oversize_header : forall j h rest,
+    (j <= length sent_d)%nat -> existsb fin (firstn j sent_d) = false ->
+    length h = 8%nat -> buf_size < le_value h ->
+    let w := concat (firstn j honest_frames) ++ h ++ rest in
+    snd (recv_bytes (r_init d) w) = firstn j sent_d /\ is_failed (fst (recv_bytes (r_init d) w)) = true.
+  Proof.
+    intros j h rest Hj Hnf Hh Hov w.
+    assert (Hlen : length honest_frames = length sent_d).
+    { unfold honest_frames, frames_from. rewrite map_length. clear. generalize (lsb d).
+      induction sent_d as [|m r IH]; intros c; cbn [seal_cts length]; [reflexivity | now rewrite IH]. }
+    assert (Hf8 : firstn 8 (h ++ rest) = h).
+    { rewrite <- Hh at 1. rewrite firstn_app, Nat.sub_diag, firstn_all. cbn [firstn]. apply app_nil_r. }
+    assert (Hx : forall f, nth_error honest_frames j = Some f -> starts_with f (h ++ rest) = false).
+    { intros f Hf. destruct (starts_with f (h ++ rest)) eqn:Esw; [exfalso | reflexivity].
+      unfold honest_frames, frames_from in Hf. rewrite nth_error_map in Hf.
+      destruct (nth_error (seal_cts seal true (lsb d) sent_d) j) as [cj|] eqn:Ecj; [|discriminate].
+      cbn [option_map] in Hf. inversion Hf; subst f.
+      destruct (seal_cts_nth _ _ _ _ _ Ecj) as (m & Hm & Ec).
+      destruct (sender_ok_nth seal _ _ _ _ Hok_d Hm) as [_ Q]. rewrite <- Ec in Q.
+      apply starts_with_app in Esw.
+      assert (E : firstn 8 (h ++ rest) = le_bytes 8 (blen cj)).
+      { rewrite Esw. unfold frame_of. rewrite <- !app_assoc.
+        pose proof (le_bytes_length 8 (blen cj)) as Hl. rewrite <- Hl at 1.
+        rewrite firstn_app, Nat.sub_diag, firstn_all. cbn [firstn]. apply app_nil_r. }
+      rewrite Hf8 in E. rewrite E, le_value_le_bytes in Hov by (rewrite pow_256_8; unfold buf_size, u64_limit in *; lia).
+      lia. }
+    destruct (lead_after_prefix honest_frames j (h ++ rest) ltac:(lia) Hx) as [A B].
+    pose proof (recv_prefix w) as P. pose proof (recv_status w) as S.
+    unfold w in P, S. rewrite A in P, S. rewrite B in S. rewrite Hnf in S.
+    assert (Hd : decidable_head (h ++ rest) = true).
+    { unfold decidable_head. rewrite Hf8.
+      assert (E8 : (8 <=? length (h ++ rest))%nat = true) by (apply Nat.leb_le; rewrite app_length; lia).
+      assert (Eo : (buf_size <? le_value h) = true) by (apply N.ltb_lt; assumption).
+      rewrite E8, Eo. reflexivity. }
+    rewrite Hd in S. rewrite upto_final_nofin in P by assumption. split; assumption.
+  Qed.
 End Session.
+
+(* ------------------------------------------------------------------ a peer without the key *)
+Theorem no_key_no_delivery open wf fin bump d :
+  (forall n c, open n c = None) ->
+  forall w, snd (recv_bytes open wf fin bump d (r_init d) w) = [].
+Proof.
+  intros H w. apply (no_open_no_delivery open wf fin bump d (lsb d)); [intros c; apply H | left; reflexivity].
+Qed.
+
+(* The only things ever sealed under the key are the receiver's own side's messages (the peer does
+   not hold the key, it can only reflect them): nothing is delivered. *)
+Theorem reflection_only_no_delivery seal open wf fin d own :
+  (forall n m c, open n c = Some m -> In (n, m, c) (seal_log seal true (lsb (other d)) own)) ->
+  sender_ok seal (lsb (other d)) own ->
+  forall w, snd (recv_bytes open wf fin true d (r_init d) w) = [].
+Proof.
+  intros H2 Hok w. apply (no_open_no_delivery open wf fin true d (lsb d)); [|left; reflexivity].
+  intros c. destruct (open (nonce_of (lsb d)) c) as [m|] eqn:Eo; [exfalso | reflexivity].
+  apply H2 in Eo. apply in_seal_log in Eo as (k & Hk & En & _).
+  destruct (sender_ok_nth seal _ _ _ _ Hok Hk) as [P _].
+  apply (other_dir_nonce d 0 (N.of_nat k)); [destruct d; reflexivity | lia |].
+  replace (lsb d + 2 * 0) with (lsb d) by lia. exact En.
+Qed.
+
+(* ------------------------------------------------------------------ no (key, nonce) pair is used twice in a session *)
+Theorem session_nonces_nodup seal sent0 sent1 :
+  sender_ok seal (lsb BossToDoer) sent0 -> sender_ok seal (lsb DoerToBoss) sent1 ->
+  NoDup (log_nonces (seal_log seal true (lsb BossToDoer) sent0 ++ seal_log seal true (lsb DoerToBoss) sent1)).
+Proof.
+  intros H0 H1. unfold log_nonces. rewrite map_app. apply NoDup_app_intro.
+  - apply (seal_log_nodup seal sent0 _ H0). reflexivity.
+  - apply (seal_log_nodup seal sent1 _ H1). reflexivity.
+  - intros x Hx0 Hx1.
+    apply in_map_iff in Hx0 as ([[n0 m0] c0] & E0 & Hin0). apply in_map_iff in Hx1 as ([[n1 m1] c1] & E1 & Hin1).
+    cbn [fst] in E0, E1. subst n0 n1.
+    apply in_seal_log in Hin0 as (k0 & Hk0 & En0 & _). apply in_seal_log in Hin1 as (k1 & Hk1 & En1 & _).
+    destruct (sender_ok_nth seal _ _ _ _ H0 Hk0) as [P0 _]. destruct (sender_ok_nth seal _ _ _ _ H1 Hk1) as [P1 _].
+    rewrite En0 in En1. apply nonce_of_inj in En1; cbn [lsb] in *; lia.
+Qed.
+
+(* ------------------------------------------------------------------ the stream without an adversary (C14, TCP half) *)
+Section Stream.
+  Variable seal : bytes -> bytes -> bytes.
+  Variable open : bytes -> bytes -> option bytes.
+  Variable wf fin : bytes -> bool.
+  Variable d : dir.
+  Hypothesis H1t : forall n m, open n (seal n m) = Some m.
+
+  Lemma parity_plus2 ctr : ctr mod 2 = lsb d -> (ctr + 2) mod 2 = lsb d.
+  Proof.
+    intros H. rewrite <- H. symmetry.
+    pose proof (N.div_mod ctr 2 ltac:(lia)) as E. pose proof (N.mod_lt ctr 2 ltac:(lia)) as L.
+    apply N.mod_unique with (q := ctr / 2 + 1); lia.
+  Qed.
+
+  Lemma recv_honest_stream ms : forall ctr,
+    ctr mod 2 = lsb d -> sender_ok seal ctr ms -> Forall (fun m => wf m = true) ms ->
+    snd (recv_bytes open wf fin true d (start ctr) (concat (frames_from seal ctr ms))) = upto_final fin ms /\
+    is_failed (fst (recv_bytes open wf fin true d (start ctr) (concat (frames_from seal ctr ms)))) = false.
+  Proof.
+    induction ms as [|m0 r IH]; intros ctr Hp Hok Hwf.
+    - cbn. split; reflexivity.
+    - destruct Hok as (Ho & Hsz & Hok'). inversion Hwf as [|? ? Hw0 Hwr]; subst.
+      cbn [frames_from seal_cts map concat next_ctr upto_final].
+      rewrite (recv_frame open wf fin true d ctr _ _ Hsz).
+      rewrite (finish_frame_honest open wf fin d ctr m0 _ Hp Ho (H1t _ _) Hw0). cbn [fst snd opt_cons].
+      destruct (fin m0).
+      + rewrite recv_bytes_finished. split; reflexivity.
+      + destruct (IH (ctr + 2) (parity_plus2 ctr Hp) Hok' Hwr) as [A B].
+        unfold frames_from, start in A, B. rewrite A. split; [reflexivity | exact B].
+  Qed.
+
+  Theorem stream_roundtrip : forall msgs segs ctr' frames,
+    send_all seal true d (lsb d) msgs = Ok (ctr', frames) ->
+    Forall (fun m => wf m = true) msgs ->
+    upto_final fin msgs = msgs ->                 (* nothing is sent after the final message *)
+    concat segs = concat frames ->                (* any segmentation of the byte stream *)
+    decode_stream open wf fin true d segs = msgs.
+  Proof.
+    intros msgs segs ctr' frames Hs Hwf Hfin Hseg.
+    apply send_all_ok_inv in Hs as (Hok & Hf & _).
+    unfold decode_stream. rewrite recv_segments_concat, Hseg, Hf.
+    assert (Hp : lsb d mod 2 = lsb d) by (destruct d; reflexivity).
+    destruct (recv_honest_stream msgs (lsb d) Hp Hok Hwf) as [A _].
+    unfold frames_from, start in A. unfold r_init. rewrite A. exact Hfin.
+  Qed.
+End Stream.
+
+(* ------------------------------------------------------------------ the toy ideal AEAD satisfies H1 and H2 *)
+Lemma toy_H2 log n m c : toy_open log n c = Some m -> In (n, m, c) log.
+Proof.
+  unfold toy_open. induction log as [|[[n' m'] c'] r IH]; cbn [toy_lookup]; intros H; [discriminate|].
+  destruct (str_eqb n n' && str_eqb c c') eqn:E.
+  - apply andb_true_iff in E as [E1 E2]. apply str_eqb_eq in E1, E2. inversion H; subst. left. reflexivity.
+  - right. apply IH. exact H.
+Qed.
+
+Lemma toy_seal_inj k n m m' : toy_seal k n m = toy_seal k n m' -> m = m'.
+Proof. unfold toy_seal. intros H. apply app_inv_head in H. apply app_inv_head in H. exact H. Qed.
+
+Lemma toy_H1_gen k log n m c :
+  (forall e, In e log -> snd e = toy_seal k (fst (fst e)) (snd (fst e))) ->
+  In (n, m, c) log -> toy_open log n c = Some m.
+Proof.
+  unfold toy_open. induction log as [|[[n' m'] c'] r IH]; intros Hform Hin; [contradiction|].
+  cbn [toy_lookup].
+  destruct (str_eqb n n' && str_eqb c c') eqn:E.
+  - apply andb_true_iff in E as [E1 E2]. apply str_eqb_eq in E1, E2. subst n' c'.
+    pose proof (Hform (n, m', c) (or_introl eq_refl)) as F1. cbn [fst snd] in F1.
+    pose proof (Hform (n, m, c) Hin) as F2. cbn [fst snd] in F2.
+    rewrite F1 in F2. apply toy_seal_inj in F2. now subst.
+  - destruct Hin as [Hin|Hin].
+    + inversion Hin; subst. rewrite !str_eqb_refl in E. discriminate.
+    + apply IH; [|exact Hin]. intros e He. apply Hform. now right.
+Qed.
+
+Lemma seal_log_form seal bump ms : forall ctr e, In e (seal_log seal bump ctr ms) -> snd e = seal (fst (fst e)) (snd (fst e)).
+Proof.
+  induction ms as [|m r IH]; intros ctr e H; [contradiction|].
+  destruct H as [H|H]; [subst e; reflexivity | eapply IH; exact H].
+Qed.
+
+Lemma toy_H1 bump k c0 s0 c1 s1 n m c :
+  In (n, m, c) (toy_log bump k c0 s0 c1 s1) -> toy_open (toy_log bump k c0 s0 c1 s1) n c = Some m.
+Proof.
+  apply (toy_H1_gen k). intros e He. unfold toy_log in He. apply in_app_or in He as [He|He]; eapply seal_log_form; exact He.
+Qed.
+
+(* ------------------------------------------------------------------ the code as it is on the pinned tree (bump = false) *)
+Definition refute_key : bytes := repeat (ascii_of_N 7) 16.
+Definition refute_m0 : bytes := le_bytes 4 1 ++ le_bytes 8 2 ++ [ascii_of_N 170; ascii_of_N 187].
+Definition refute_m1 : bytes := le_bytes 4 2 ++ le_bytes 8 0.
+
+Lemma refuted_without_bump :
+  let k := refute_key in
+  let sent := [refute_m0; refute_m1] in
+  let log := toy_session_log false k sent [] in
+  (forall n m c, In (n, m, c) log -> toy_open log n c = Some m) /\
+  (forall n m c, toy_open log n c = Some m -> In (n, m, c) log) /\
+  exists f0 f1 ctr',
+    toy_send false k BossToDoer (lsb BossToDoer) sent = Ok (ctr', [f0; f1]) /\
+    (* the first frame is put on the wire twice: the receiver of the unrepaired code takes it twice *)
+    snd (toy_recv false log BossToDoer (r_init BossToDoer) (f0 ++ f0 ++ f1)) = [refute_m0; refute_m0; refute_m1] /\
+    lead [f0; f1] (f0 ++ f0 ++ f1) = 1%nat /\
+    (* and both frames were sealed under one (key, nonce) *)
+    ~ NoDup (log_nonces log).
+Proof.
+  cbv zeta. split; [intros n m c; apply toy_H1|]. split; [intros n m c; apply toy_H2|].
+  eexists. eexists. eexists. split; [vm_compute; reflexivity|].
+  split; [vm_compute; reflexivity|]. split; [vm_compute; reflexivity|].
+  vm_compute. intros H. inversion H as [|? ? Hn _]. apply Hn. left. reflexivity.
+Qed.
+
+(* the same script against the repaired code: only the first copy is taken, then the receiver fails *)
+Lemma repaired_rejects_duplicate :
+  let k := refute_key in
+  let sent := [refute_m0; refute_m1] in
+  let log := toy_session_log true k sent [] in
+  exists f0 f1 ctr',
+    toy_send true k BossToDoer (lsb BossToDoer) sent = Ok (ctr', [f0; f1]) /\
+    snd (toy_recv true log BossToDoer (r_init BossToDoer) (f0 ++ f0 ++ f1)) = [refute_m0] /\
+    is_failed (fst (toy_recv true log BossToDoer (r_init BossToDoer) (f0 ++ f0 ++ f1))) = true.
+Proof.
+  cbv zeta. eexists. eexists. eexists. split; [vm_compute; reflexivity|]. split; vm_compute; reflexivity.
+Qed.
+
+(* ------------------------------------------------------------------ the statements of Props/C10.v *)
+Section Final.
+  Variable seal : bytes -> bytes -> bytes.
+  Variable open : bytes -> bytes -> option bytes.
+  Variable wf fin : bytes -> bool.
+  Variable d : dir.
+  Variable sent_d sent_o frames_d frames_o : list bytes.
+  Hypothesis Hrun_d : honest_run seal d sent_d frames_d.
+  Hypothesis Hrun_o : honest_run seal (other d) sent_o frames_o.
+  Hypothesis Haead : ideal_aead open (dir_log seal d sent_d sent_o).
+  Hypothesis Hwf : Forall (fun m => wf m = true) sent_d.
+
+  Lemma final_ok_d : sender_ok seal (lsb d) sent_d /\ frames_d = honest_frames seal d sent_d.
+  Proof. destruct Hrun_d as [c H]. apply send_all_ok_inv in H as (A & B & _). split; assumption. Qed.
+  Lemma final_ok_o : sender_ok seal (lsb (other d)) sent_o.
+  Proof. destruct Hrun_o as [c H]. apply send_all_ok_inv in H as (A & _). exact A. Qed.
+
+  Theorem final_prefix : forall wire,
+    snd (recv_bytes open wf fin true d (r_init d) wire) = upto_final fin (firstn (lead frames_d wire) sent_d).
+  Proof.
+    destruct final_ok_d as [A B]. destruct Haead as [H1 H2]. rewrite B.
+    exact (recv_prefix seal open wf fin d sent_d sent_o H1 H2 A final_ok_o Hwf).
+  Qed.
+
+  Theorem final_status : forall wire,
+    let st := fst (recv_bytes open wf fin true d (r_init d) wire) in
+    if existsb fin (firstn (lead frames_d wire) sent_d) then r_st st = RFinished
+    else if decidable_head (after_lead frames_d wire) then is_failed st = true
+         else is_waiting st = true.
+  Proof.
+    destruct final_ok_d as [A B]. destruct Haead as [H1 H2]. rewrite B.
+    exact (recv_status seal open wf fin d sent_d sent_o H1 H2 A final_ok_o Hwf).
+  Qed.
+
+  Theorem final_deviating : forall j c' rest,
+    (j <= length sent_d)%nat -> existsb fin (firstn j sent_d) = false ->
+    blen c' <= buf_size -> nth_error frames_d j <> Some (frame_of c') ->
+    let wire := concat (firstn j frames_d) ++ frame_of c' ++ rest in
+    snd (recv_bytes open wf fin true d (r_init d) wire) = firstn j sent_d /\
+    is_failed (fst (recv_bytes open wf fin true d (r_init d) wire)) = true.
+  Proof.
+    destruct final_ok_d as [A B]. destruct Haead as [H1 H2]. rewrite B.
+    intros j c' rest Hj Hnf Hb Hne.
+    apply (recv_deviating_frame seal open wf fin d sent_d sent_o H1 H2 A final_ok_o Hwf j c' rest Hj Hnf Hb).
+    intros E. apply Hne. unfold honest_frames, frames_from. rewrite nth_error_map, E. reflexivity.
+  Qed.
+
+  Theorem final_oversize : forall j h rest,
+    (j <= length sent_d)%nat -> existsb fin (firstn j sent_d) = false ->
+    length h = 8%nat -> buf_size < le_value h ->
+    let wire := concat (firstn j frames_d) ++ h ++ rest in
+    snd (recv_bytes open wf fin true d (r_init d) wire) = firstn j sent_d /\
+    is_failed (fst (recv_bytes open wf fin true d (r_init d) wire)) = true.
+  Proof.
+    destruct final_ok_d as [A B]. destruct Haead as [H1 H2]. rewrite B.
+    intros j h rest Hj Hnf Hh Hov.
+    exact (recv_oversize_header seal open wf fin d sent_d sent_o H1 H2 A final_ok_o Hwf j h rest Hj Hnf Hh Hov).
+  Qed.
+End Final.
+
+Theorem final_no_reuse seal sent0 sent1 frames0 frames1 :
+  honest_run seal BossToDoer sent0 frames0 -> honest_run seal DoerToBoss sent1 frames1 ->
+  NoDup (map (fun e => fst (fst e)) (dir_log seal BossToDoer sent0 sent1)).
+Proof.
+  intros [c0 H0] [c1 H1]. apply send_all_ok_inv in H0 as (A0 & _). apply send_all_ok_inv in H1 as (A1 & _).
+  exact (session_nonces_nodup seal sent0 sent1 A0 A1).
+Qed.
+
+Theorem final_reflection seal open wf fin d own frames :
+  honest_run seal (other d) own frames ->
+  (forall n m c, open n c = Some m -> In (n, m, c) (seal_log seal true (lsb (other d)) own)) ->
+  forall wire, snd (recv_bytes open wf fin true d (r_init d) wire) = [].
+Proof.
+  intros [c H] H2. apply send_all_ok_inv in H as (A & _).
+  exact (reflection_only_no_delivery seal open wf fin d own H2 A).
+Qed.
+
+Theorem final_no_key open wf fin bump d :
+  ideal_aead open [] -> forall wire, snd (recv_bytes open wf fin bump d (r_init d) wire) = [].
+Proof.
+  intros [_ H2]. apply no_key_no_delivery. intros n c. destruct (open n c) as [m|] eqn:E; [|reflexivity].
+  exfalso. exact (H2 _ _ _ E).
+Qed.
+
+Theorem final_segmentation open wf fin bump d st segs :
+  recv_segments open wf fin bump d st segs = recv_bytes open wf fin bump d st (concat segs).
+Proof. apply recv_segments_concat. Qed.
+
+(* the premises are jointly satisfiable: the toy functionality, two messages one way and one back *)
+Definition ex_key : bytes := repeat (ascii_of_N 7) 16.
+Definition ex_sent0 : list bytes := [refute_m0; refute_m1].
+Definition ex_sent1 : list bytes := [le_bytes 4 9 ++ le_bytes 8 0].
+
+Lemma premises_satisfiable :
+  let seal := toy_seal ex_key in
+  let open := toy_open (dir_log seal BossToDoer ex_sent0 ex_sent1) in
+  exists f0 f1,
+    honest_run seal BossToDoer ex_sent0 f0 /\ honest_run seal DoerToBoss ex_sent1 f1 /\
+    ideal_aead open (dir_log seal BossToDoer ex_sent0 ex_sent1) /\
+    Forall (fun m => toy_wf m = true) ex_sent0 /\
+    snd (recv_bytes open toy_wf toy_fin true BossToDoer (r_init BossToDoer) (concat f0)) = ex_sent0.
+Proof.
+  cbv zeta. eexists. eexists.
+  split; [eexists; vm_compute; reflexivity|]. split; [eexists; vm_compute; reflexivity|].
+  split.
+  { split; intros n m c.
+    - apply (toy_H1 true ex_key (lsb BossToDoer) ex_sent0 (lsb DoerToBoss) ex_sent1).
+    - apply toy_H2. }
+  split; [repeat constructor|]. vm_compute. reflexivity.
+Qed.
